@@ -120,7 +120,10 @@ Section FieldFacts.
     repeat first [ exact two_nz | exact (three_nz' three_nz) | exact three_nz | exact f_1_neq_0
                  | apply nz_opp | apply nz_mul ].
 
-  Ltac nsatz23 two_nz three_nz := nsatz; try (nz_side two_nz three_nz).
+  (* every nsatz call is bounded: on a mutated program a Groebner computation that cannot succeed
+     must fail the build instead of running for the whole make timeout *)
+  Ltac nsatzT := timeout 300 nsatz.
+  Ltac nsatz23 two_nz three_nz := nsatzT; try (nz_side two_nz three_nz).
 
   (* ================================================================================== *)
   (*  short Weierstrass: weierstrass.go                                                  *)
@@ -157,12 +160,12 @@ Section FieldFacts.
     (* ---- the curve equation is preserved ------------------------------------------- *)
     Lemma add_preserves_curve : forall P Q, proj_on P -> proj_on Q -> proj_on (w_add P Q).
     Proof.
-      intros [[X1 Y1] Z1] [[X2 Y2] Z2]. unfold proj_on, w_add. cbv [W_Add]. intros H1 H2. nsatz.
+      intros [[X1 Y1] Z1] [[X2 Y2] Z2]. unfold proj_on, w_add. cbv [W_Add]. intros H1 H2. nsatzT.
     Qed.
 
     Lemma dbl_preserves_curve : forall P, proj_on P -> proj_on (w_double P).
     Proof.
-      intros [[X1 Y1] Z1]. unfold proj_on, w_double. cbv [W_Double]. intros H1. nsatz.
+      intros [[X1 Y1] Z1]. unfold proj_on, w_double. cbv [W_Double]. intros H1. nsatzT.
     Qed.
 
     (* ---- homogeneity: the programs are bihomogeneous of degree (2,2) / 4 ---------------- *)
@@ -186,7 +189,7 @@ Section FieldFacts.
       X3 = (l * l - x1 - x2) * Z3 /\ Y3 = (l * (x1 - (l * l - x1 - x2)) - y1) * Z3.
     Proof.
       unfold aff_on. intros x1 y1 x2 y2 l di X3 Y3 Z3 H1 H2 Hd Hl HA. cbv [W_Add] in HA.
-      injection HA as HX HY HZ. subst X3 Y3 Z3. split; nsatz.
+      injection HA as HX HY HZ. subst X3 Y3 Z3. split; nsatzT.
     Qed.
 
     Section CharNot23.
@@ -300,7 +303,7 @@ Section FieldFacts.
       Proof.
         intros X Y Z HZ Hon. unfold proj_on in Hon. unfold aff_on.
         pose (zi := finv K Z). assert (Hzi : Z * zi = 1) by (apply finv_r; exact HZ).
-        fold zi. clearbody zi. nsatz.
+        fold zi. clearbody zi. nsatzT.
       Qed.
 
       Lemma to_affine_scale : forall c X Y Z, c <> 0 ->
@@ -490,7 +493,7 @@ Section FieldFacts.
     Qed.
 
     Lemma neg_preserves_curve : forall P, proj_on P -> proj_on (w_neg P).
-    Proof. intros [[X Y] Z]. unfold proj_on, w_neg. cbv [W_Neg]. intro H. nsatz. Qed.
+    Proof. intros [[X Y] Z]. unfold proj_on, w_neg. cbv [W_Neg]. intro H. nsatzT. Qed.
 
     Lemma is_zero_spec : forall Z, W_IsZero K Z = true <-> Z = 0.
     Proof. intro Z. cbv [W_IsZero]. apply fis0_eq. Qed.
@@ -594,13 +597,13 @@ Section FieldFacts.
     Lemma ed_add_preserves_curve : forall P Q, e_proj_on P -> e_proj_on Q -> e_proj_on (e_add P Q).
     Proof.
       intros [[[X1 Y1] T1] Z1] [[[X2 Y2] T2] Z2]. unfold e_proj_on, e_add. cbv [E_Add].
-      intros [H1 H1'] [H2 H2']. split; nsatz.
+      intros [H1 H1'] [H2 H2']. split; nsatzT.
     Qed.
 
     Lemma ed_double_preserves_curve : forall P, e_proj_on P -> e_proj_on (e_double P).
     Proof.
       intros [[[X1 Y1] T1] Z1]. unfold e_proj_on, e_double. cbv [E_Double].
-      intros [H1 H1']. split; nsatz.
+      intros [H1 H1']. split; nsatzT.
     Qed.
 
     (* the unified addition on affine inputs, every coordinate written out (no curve equation needed) *)
@@ -624,7 +627,7 @@ Section FieldFacts.
       ((x * y + x * y) * (- (1 - t)), (1 + t) * (a * (x * x) - y * y),
        (x * y + x * y) * (a * (x * x) - y * y), (- (1 - t)) * (1 + t)).
     Proof.
-      unfold e_aff_on. intros x y H. cbv [E_Double]. cbv zeta. apply tup4; nsatz.
+      unfold e_aff_on. intros x y H. cbv [E_Double]. cbv zeta. apply tup4; nsatzT.
     Qed.
 
     Lemma ed_double_homog : forall x1 y1 z1 : F,
@@ -646,12 +649,12 @@ Section FieldFacts.
       Proof.
         unfold e_aff_on. intros x1 y1 x2 y2 H1 H2. cbv zeta. set (t := d * (x1 * x2 * (y1 * y2))). intro Ht.
         pose (w1 := x1 * y1 * (s * x2 + y2)). pose (w2 := x1 * y1 * (s * x2 - y2)).
-        assert (I1 : d * (w1 * w1) = (s * x1 + t * y1) * (s * x1 + t * y1)) by (subst w1 t; nsatz).
-        assert (I2 : d * (w2 * w2) = (s * x1 - t * y1) * (s * x1 - t * y1)) by (subst w2 t; nsatz).
+        assert (I1 : d * (w1 * w1) = (s * x1 + t * y1) * (s * x1 + t * y1)) by (subst w1 t; nsatzT).
+        assert (I2 : d * (w2 * w2) = (s * x1 - t * y1) * (s * x1 - t * y1)) by (subst w2 t; nsatzT).
         destruct (feqb K w1 0) eqn:E1.
         - destruct (feqb K w2 0) eqn:E2.
           + apply feqb_eq in E1, E2.
-            assert (E : (1 + 1) * t = 0) by (subst w1 w2 t; nsatz).
+            assert (E : (1 + 1) * t = 0) by (subst w1 w2 t; nsatzT).
             destruct (f_integral _ _ E) as [|Ht0]; [contradiction|].
             apply f_1_neq_0. rewrite <- Ht, Ht0. ring.
           + apply feqb_neq in E2. apply (d_nonsquare ((s * x1 - t * y1) * finv K w2)).
@@ -676,7 +679,7 @@ Section FieldFacts.
       Proof.
         intros X Y T Z [[H1 H2] HZ]. cbn [snd] in HZ. unfold e_aff_on.
         pose (zi := finv K Z). assert (Hzi : Z * zi = 1) by (apply finv_r; exact HZ).
-        fold zi. clearbody zi. split; nsatz.
+        fold zi. clearbody zi. split; nsatzT.
       Qed.
 
       Theorem e_add_correct : forall P Q, e_valid P -> e_valid Q ->
